@@ -40,6 +40,23 @@ fn across_names(ctx: &mut Ctx) {
     let got = guard(|| {
         let mut all: HashSet<std::path::PathBuf> = HashSet::new();
         let mut dup: Option<String> = None;
+        // This runs first in a fresh process, i.e. with the counter at its initial value. If the pieces of a
+        // name were concatenated without a separator, "n1" + 10..99 and "n" + 110..199 would be the same names:
+        // 100 calls with one name part, then 1100 with the part it extends (and the same for the empty part).
+        for (longer, shorter) in [("n1", "n"), ("1", "")] {
+            for _ in 0..100 {
+                let p = temp_file_name(longer);
+                if !all.insert(p.clone()) && dup.is_none() {
+                    dup = Some(p.to_string_lossy().to_string());
+                }
+            }
+            for _ in 0..1100 {
+                let p = temp_file_name(shorter);
+                if !all.insert(p.clone()) && dup.is_none() {
+                    dup = Some(p.to_string_lossy().to_string());
+                }
+            }
+        }
         for _round in 0..150 {
             for name in names {
                 let p = temp_file_name(name);
@@ -138,8 +155,8 @@ fn explore(ctx: &mut Ctx) {
     if !ctx.mine_index(0) {
         return;
     }
+    across_names(ctx); // first: it wants the counter at its initial value
     sequential(ctx);
-    across_names(ctx);
     histories(ctx);
     let calls = ctx.tier.pick(20_000, 200_000);
     free_running(ctx, 8, calls);
